@@ -7,7 +7,7 @@ From L2 Require Import Model Base Own.
 
 Definition fresh (j : job) : bool := match j with JFut _ Waiting _ => false | _ => true end.
 Definition susp (j : job) : option nat :=
-  match j with JFut _ Waiting (PAwait e :: _) | JFut _ Waiting (PAwaitEither e _ :: _) => Some e | _ => None end.
+  match j with JFut _ Waiting (PAwait e :: _) | JFut _ Waiting (PAwaitEither e _ :: _) | JFut _ Waiting (PAwaitDone e :: _) => Some e | _ => None end.
 Definition jop (j : job) : nat := match j with JPlain o | JFut o _ _ | JSync o _ _ => o end.
 Definition wop (j : job) : option nat := match j with JFut o Waiting _ => Some o | _ => None end.
 (* the job a frame holds; a sync_immediate closure counts as a (virtual) plain job in hand *)
@@ -245,10 +245,8 @@ Proof.
   - intros H Hnf. destruct (wbn (l1 ++ GStart o :: l2)) as [cur|] eqn:E; cbn in H; [|done].
     destruct (IH l2 o cur E) as [Hns ->]; [intros Hin; apply Hnf; by right|].
     destruct ev; cbn in H; try done.
-    + injection H as <-. split; [|done]. intros o' [?|?]%elem_of_cons; [done|by eapply Hns].
-    + destruct (decide (o0 = o)) as [->|]; [exfalso; apply Hnf; left|done].
-    + injection H as <-. split; [|done]. intros o' [?|?]%elem_of_cons; [done|by eapply Hns].
-    + injection H as <-. split; [|done]. intros o' [?|?]%elem_of_cons; [done|by eapply Hns].
+    all: try (injection H as <-; split; [|done]; intros o' [?|?]%elem_of_cons; [done|by eapply Hns]).
+    destruct (decide (o0 = o)) as [->|]; [exfalso; apply Hnf; left|done].
 Qed.
 Lemma wbn_suffix l1 l2 c : wbn (l1 ++ l2) = Some c -> exists c2, wbn l2 = Some c2.
 Proof.
